@@ -85,8 +85,12 @@ type inst struct {
 	proof      []byte
 	// generator side
 	bsc      *bscChain
+	bsc0     *bscChain // the chain as it stood at the anchor (before any update was applied)
+	fact     *evmFact
 	bscList  []common.Address // list announced by the anchor (what pendingValidators must hold)
 	eth      *ethChain
+	eth0     *ethtypes.Header // the anchor the instance was built on
+	ethDelay uint64
 	tmLatest int64 // latest height the client has been given (Tendermint)
 	tmDelay  uint64
 	tss      *core.Account // current TSS account
@@ -195,14 +199,23 @@ func bscInst(c *bscChain, f *evmFact) *inst {
 	h := *c.head
 	cs := &bsctypes.ClientState{Header: h, ChainId: c.chainID, Epoch: c.epoch, BlockInteval: 3, Validators: addrBytes(c.cur), ContractAddress: f.contract[:], TrustingPeriod: 1 << 40}
 	cons := &bsctypes.ConsensusState{Timestamp: h.Time, Height: h.Height, Root: h.Root}
-	return &inst{typ: tBSC, cs: cs, cons: cons, installed: h.Height, src: f.src, dst: f.dst, seq: f.seq, commitment: f.commitment, proof: f.proof, bsc: c, bscList: append([]common.Address{}, c.pend...)}
+	return &inst{typ: tBSC, cs: cs, cons: cons, installed: h.Height, src: f.src, dst: f.dst, seq: f.seq, commitment: f.commitment, proof: f.proof, bsc: c, bsc0: c.clone(), fact: f, bscList: append([]common.Address{}, c.pend...)}
+}
+
+// sameAnchorInst is the upgrade a governance vote can legitimately carry after the client has moved on: the contents the client
+// was installed with, again (a roll-back to the anchor). Headers that follow that anchor on the counterparty stay valid.
+func (e *env) sameAnchorInst(rng *rand.Rand, old *inst) *inst {
+	if old.typ == tETH {
+		return ethInst(rng, &ethChain{head: *old.eth0}, old.fact, old.ethDelay)
+	}
+	return bscInst(old.bsc0.clone(), old.fact)
 }
 
 func ethInst(rng *rand.Rand, c *ethChain, f *evmFact, blockDelay uint64) *inst {
 	h := c.head
 	cs := &ethtypes.ClientState{Header: h, ChainId: 4, ContractAddress: f.contract[:], TrustingPeriod: 1 << 40, TimeDelay: 0, BlockDelay: blockDelay}
 	cons := &ethtypes.ConsensusState{Timestamp: h.Time, Height: h.Height, Root: h.Root}
-	return &inst{typ: tETH, cs: cs, cons: cons, installed: h.Height, src: f.src, dst: f.dst, seq: f.seq, commitment: f.commitment, proof: f.proof, eth: c}
+	return &inst{typ: tETH, cs: cs, cons: cons, installed: h.Height, src: f.src, dst: f.dst, seq: f.seq, commitment: f.commitment, proof: f.proof, eth: c, eth0: &h, ethDelay: blockDelay, fact: f}
 }
 
 func (e *env) tssInst(rng *rand.Rand, acc *core.Account) *inst {
